@@ -498,6 +498,11 @@ class Response:
         if self._cookies is None:
             self._cookies = http_cookies.SimpleCookie()
 
+        # NOTE: SimpleCookie reuses an existing Morsel (and with it every
+        #   attribute set earlier) when a name is assigned again; start from a
+        #   fresh one so that the cookie carries exactly the given attributes.
+        self._cookies.pop(name, None)
+
         try:
             self._cookies[name] = value
         except http_cookies.CookieError as e:  # pragma: no cover
@@ -626,6 +631,11 @@ class Response:
             self._cookies = http_cookies.SimpleCookie()
 
         self._cookies[name] = ''
+
+        # NOTE: SimpleCookie reuses the Morsel of an earlier set_cookie(); a
+        #   Max-Age left on it takes precedence over Expires and would keep
+        #   the cookie alive, so clear it (empty attributes are not emitted).
+        self._cookies[name]['max-age'] = ''
 
         # NOTE(Freezerburn): SimpleCookie apparently special cases the
         # expires attribute to automatically use strftime and set the
